@@ -1442,13 +1442,31 @@ def prove(name, cond, kind="post", margin=None):
     return verdict == "unsat"
 
 
+def _special_of(x):
+    """the float inf/nan token carried by x, else None"""
+    if isinstance(x, SR):
+        return None
+    c = conc(x)
+    return c if is_special(c) else None
+
+
 def prove_eq(name, a, b, kind="post"):
+    sa, sb = _special_of(a), _special_of(b)
+    if sa is not None or sb is not None:      # IEEE semantics for the non-finite tokens (a finite real never equals them)
+        return prove(name, bool(sa is not None and sb is not None and sa == sb), kind=kind)
     a = a if isinstance(a, SR) else SR(a)
     b = b if isinstance(b, SR) else SR(b)
     return prove(name, a == b, kind=kind, margin=lambda d: Or(a - b >= d, b - a >= d))
 
 
 def prove_le(name, a, b, kind="post"):
+    sa, sb = _special_of(a), _special_of(b)
+    if sa is not None or sb is not None:
+        fa = sa if sa is not None else 0.0
+        fb = sb if sb is not None else 0.0
+        if (sa is not None and math.isnan(sa)) or (sb is not None and math.isnan(sb)):
+            return prove(name, False, kind=kind)
+        return prove(name, bool(fa <= fb), kind=kind)
     a = a if isinstance(a, SR) else SR(a)
     b = b if isinstance(b, SR) else SR(b)
     return prove(name, a <= b, kind=kind, margin=lambda d: a - b >= d)
